@@ -23,7 +23,7 @@ EXPLANATION = (
     "small degree/radian unit inference over the trigonometric calls.")
 NOT_DECIDED = ["numerical agreement of vectors with lengths/angles, near-degenerate cells", "positive volume for valid angle triples (numerical)"]
 ASSUMPTIONS = ["numpy trigonometric functions take radians"]
-FLOORS = {"C17-R1": 20, "C17-R2": 3, "C17-R3": 8, "C17-R4": 20, "C17-R5": 12, "C17-R6": 4}
+FLOORS = {"C17-R1": 20, "C17-R2": 3, "C17-R3": 8, "C17-R4": 20, "C17-R5": 12, "C17-R6": 4, "C17-R7": 19}
 
 UC = "mdtraj/utils/unitcell.py"
 TRAJ = "mdtraj/core/trajectory.py"
@@ -61,6 +61,9 @@ def check(ctx):
     ctx.rule("C17-R2", "lengths_and_angles_to_box_vectors builds a = (a,0,0) and b = (bx,by,0) with literal zeros")
     ctx.rule("C17-R3", "the unitcell_vectors getter/setter pass columns 0,1,2 of lengths then angles in the callee's parameter order and stack (a,b,c)/(alpha,beta,gamma) in that order")
     ctx.rule("C17-R4", "unitcell_lengths and unitcell_angles are passed, assigned and cleared together at every site")
+    ctx.rule("C17-R7", "Gram identities by value numbering: |a|,|b|,|c| and the three angles of the vectors built from (lengths, angles) are those parameters; the inverse uses sqrt(v.v) and acos(v.w/|v||w|); "
+                       "LAMMPS tilt factors equal the box-vector components in writer and free function, and parse_box inverts write_box")
+    r7_gram(ctx)
     ctx.rule("C17-R6", "LAMMPS bounding-box offsets: writer adds and reader subtracts min/max over (0, xy, xz, xy+xz) and (0, yz)")
     lammps_bounds(ctx, "C17-R6")
     ctx.rule("C17-R5", "angles in degrees are converted to radians before cos/sin; arccos results are converted to degrees before being returned; volumes are det(unitcell_vectors)")
@@ -390,3 +393,135 @@ def lammps_bounds(ctx, rule):
         ctx.decide(ok, rule, a[3], LMP, "LAMMPSTrajectoryFile.write_box", "%s = %s + %s(%s); reader subtracts the same" % (wb, rb, f, ", ".join(sorted(spec[ax]))), "",
                    "writer: %s %s %s(%s); reader: %s %s %s(%s); LAMMPS defines %s(%s) - the box read back is not the box that was written whenever the omitted term is the extreme one "
                    "(e.g. both tilt factors negative)" % (wb, a[0], a[1], sorted(a[2]), rb, b[0], b[1], sorted(b[2]), f, sorted(spec[ax])))
+
+
+# ---------------------------------------------------------------------------------------------------
+# R7: Gram identities by algebraic value numbering (sa/pysym.py)
+# ---------------------------------------------------------------------------------------------------
+def r7_gram(ctx):
+    from ..pysym import PySym, Vec, Unsupported
+    from ..poly import Poly, Rat
+
+    def sym(n):
+        return Rat(Poly.var(n))
+    # ---- lengths, angles -> vectors: the Gram matrix of (a, b, c) is the one the six parameters define
+    fn = ctx.py.func(UC, "lengths_and_angles_to_box_vectors")
+    try:
+        ps = PySym().run(fn.body)
+    except Unsupported as e:
+        ctx.undecided("C17-R7", fn, UC, "lengths_and_angles_to_box_vectors", "Gram identities", "not evaluable: %s" % e)
+        return
+    ret = ps.returned
+    if not (isinstance(ret, Vec) and len(ret) == 3 and all(isinstance(v, Vec) and len(v) == 3 for v in ret)):
+        ctx.undecided("C17-R7", fn, UC, "lengths_and_angles_to_box_vectors", "Gram identities", "return value is not three 3-vectors")
+        return
+    a, b, c = ret
+    L = {"a": sym("a_length"), "b": sym("b_length"), "c": sym("c_length")}
+
+    def cosd(ps_, name):
+        return ps_.fn("cos", sym(name) * sym("pi") / 180)
+    vec = {"a": a, "b": b, "c": c}
+    for x in "abc":
+        ctx.decide(ps.equal(ps.dot(vec[x], vec[x]), L[x] * L[x]), "C17-R7", fn, UC, "lengths_and_angles_to_box_vectors", "|%s|^2 = %s_length^2" % (x, x), "",
+                   "the vector %s built from the parameters does not have length %s_length (|%s|^2 = %r)" % (x, x, x, ps.reduce(ps.dot(vec[x], vec[x]))))
+    for (x, y, ang) in (("b", "c", "alpha"), ("c", "a", "beta"), ("a", "b", "gamma")):
+        ctx.decide(ps.equal(ps.dot(vec[x], vec[y]), L[x] * L[y] * cosd(ps, ang)), "C17-R7", fn, UC, "lengths_and_angles_to_box_vectors", "%s.%s = |%s||%s| cos(%s)" % (x, y, x, y, ang), "",
+                   "the angle between %s and %s is not %s: %s.%s = %r" % (x, y, ang, x, y, ps.reduce(ps.dot(vec[x], vec[y]))))
+    # ---- vectors -> lengths, angles
+    fn2 = ctx.py.func(UC, "box_vectors_to_lengths_and_angles")
+    comp = {k: Vec([sym("%s%d" % (k, i)) for i in range(3)]) for k in "abc"}
+    try:
+        p2 = PySym(comp).run(fn2.body)
+    except Unsupported as e:
+        ctx.undecided("C17-R7", fn2, UC, "box_vectors_to_lengths_and_angles", "definitions", "not evaluable: %s" % e)
+        return
+    r2 = p2.returned
+    if not (isinstance(r2, Vec) and len(r2) == 6):
+        ctx.undecided("C17-R7", fn2, UC, "box_vectors_to_lengths_and_angles", "definitions", "return value is not a 6-tuple")
+        return
+    for i, x in enumerate("abc"):
+        want = p2.fn("sqrt", p2.dot(comp[x], comp[x]))
+        ctx.decide(p2.equal(r2[i], want), "C17-R7", fn2, UC, "box_vectors_to_lengths_and_angles", "%s_length = sqrt(%s.%s)" % (x, x, x), "", "%s_length is %r" % (x, r2[i]))
+    for i, (x, y, ang) in enumerate((("b", "c", "alpha"), ("c", "a", "beta"), ("a", "b", "gamma"))):
+        want = p2.fn("acos", p2.dot(comp[x], comp[y]) / (p2.fn("sqrt", p2.dot(comp[x], comp[x])) * p2.fn("sqrt", p2.dot(comp[y], comp[y])))) * 180 / sym("pi")
+        ctx.decide(p2.equal(r2[3 + i], want), "C17-R7", fn2, UC, "box_vectors_to_lengths_and_angles", "%s = acos(%s.%s / |%s||%s|) in degrees" % (ang, x, y, x, y), "", "%s is %r" % (ang, r2[3 + i]))
+    # ---- LAMMPS tilt factors: the writer's six numbers, the free function, and the reader's inverse
+    tf = ctx.py.func(UC, "lengths_and_angles_to_tilt_factors")
+    try:
+        pt = PySym().run(tf.body)
+    except Unsupported as e:
+        ctx.undecided("C17-R7", tf, UC, "lengths_and_angles_to_tilt_factors", "tilt factors", "not evaluable: %s" % e)
+        return
+    t = pt.returned
+    names = ["lx", "ly", "lz", "xy", "xz", "yz"]
+    # definition through the box vectors of the first function: lx = a_x, ly = b_y, lz = c_z, xy = b_x, xz = c_x, yz = c_y
+    want = [a[0], b[1], c[2], b[0], c[0], c[1]]
+    for nm, got, w in zip(names, t, want):
+        # compare squares for the square-root components (both are the non-negative root)
+        ok = ps.equal(got, w) if nm not in ("ly", "lz") else ps.equal(got * got, w * w)
+        # the two functions use different opaque-symbol tables: re-create the value in one table by comparing normal forms of reduced squares
+        if not ok:
+            ok = _same_value(ps, pt, w, got, squared=nm in ("ly", "lz", "yz"))
+        ctx.decide(ok, "C17-R7", tf, UC, "lengths_and_angles_to_tilt_factors", "%s equals the corresponding box-vector component" % nm, "",
+                   "tilt factor %s = %r differs from the component %r of the box vectors" % (nm, pt.reduce(got), ps.reduce(w)))
+    wb = ctx.py.func(LMP, "LAMMPSTrajectoryFile.write_box")
+    tri = [n for n in walk_no_nested(wb) if isinstance(n, ast.If)]
+    body = tri[0].orelse if tri else []
+    asg = [s_ for s_ in body if isinstance(s_, ast.Assign)]
+    try:
+        pw = PySym({"lengths": Vec([sym("a_length"), sym("b_length"), sym("c_length")]), "angles": Vec([sym("alpha"), sym("beta"), sym("gamma")])})
+        keep = {"a", "b", "c", "alpha", "beta", "gamma", "lx", "ly", "lz", "xy", "xz", "yz"}
+        pw.run([s_ for s_ in asg if all(isinstance(x, ast.Name) and x.id in keep for t_ in s_.targets for x in (t_.elts if isinstance(t_, ast.Tuple) else [t_]))])
+    except Unsupported as e:
+        ctx.undecided("C17-R7", wb, LMP, "LAMMPSTrajectoryFile.write_box", "tilt factors", "not evaluable: %s" % e)
+        return
+    for nm, w in zip(names, t):
+        got = pw.env.get(nm)
+        ok = got is not None and _same_value(pt, pw, w, got, squared=nm in ("ly", "lz", "yz"))
+        ctx.decide(ok, "C17-R7", wb, LMP, "LAMMPSTrajectoryFile.write_box", "%s as in lengths_and_angles_to_tilt_factors" % nm, "", "write_box computes %s = %r" % (nm, got))
+    # reader: inverse of the writer for positive lengths
+    pb = ctx.py.func(LMP, "LAMMPSTrajectoryFile.parse_box")
+    stmts = []
+    for n in ast.walk(pb):
+        if isinstance(n, ast.Assign) and isinstance(n.targets[0], ast.Name) and n.targets[0].id in ("a", "b", "c", "alpha", "beta", "gamma") and \
+                any(isinstance(x, ast.Name) and x.id in ("lx", "ly", "lz", "xy", "xz", "yz") for x in ast.walk(n.value)):
+            stmts.append(n)
+    if len(stmts) < 6:
+        ctx.undecided("C17-R7", pb, LMP, "LAMMPSTrajectoryFile.parse_box", "inverse of write_box", "the six triclinic assignments were not found")
+        return
+    # feed the writer's values (in the writer's symbol table) into the reader's formulas
+    pw.positive = {"a_length", "b_length", "c_length"}
+    env2 = {nm: pw.env[nm] for nm in names}
+    saved = dict(pw.env)
+    pw.env = env2
+    try:
+        pw.run(stmts)
+    except Unsupported as e:
+        ctx.undecided("C17-R7", pb, LMP, "LAMMPSTrajectoryFile.parse_box", "inverse of write_box", "not evaluable: %s" % e)
+        return
+    for nm, w in (("a", sym("a_length")), ("b", sym("b_length")), ("c", sym("c_length"))):
+        got = pw.env.get(nm)
+        ok = got is not None and pw.equal(got * got, w * w)
+        ctx.decide(ok, "C17-R7", pb, LMP, "LAMMPSTrajectoryFile.parse_box", "parse_box(write_box(cell)): %s recovered" % nm, "", "length %s read back as %r" % (nm, pw.reduce(got) if got is not None else None))
+    for nm in ("alpha", "beta", "gamma"):
+        got = pw.env.get(nm)
+        ok = False
+        why = repr(got)
+        if got is not None and len(got.vars()) == 1:
+            f = pw.opaque.get(list(got.vars())[0])
+            if f and f[0] == "acos":
+                arg = f[1][0]
+                want = pw.fn("cos", sym(nm) * sym("pi") / 180)
+                # compare squares when the argument carries the square roots b', c' of the reader
+                ok = pw.equal(arg, want) or pw.equal(pw.reduce(arg * arg), want * want)
+                why = repr(pw.reduce(arg))
+        ctx.decide(ok, "C17-R7", pb, LMP, "LAMMPSTrajectoryFile.parse_box", "parse_box(write_box(cell)): cos(%s) recovered" % nm, "", "the cosine of %s read back is %s" % (nm, why))
+
+
+def _same_value(p1, p2, v1, v2, squared=False):
+    """Compare values living in two evaluators by re-expressing opaque symbols through their canonical names (cos/sin of the same canonical argument share a name)."""
+    a, b = p1.reduce(v1), p2.reduce(v2)
+    if squared:
+        a, b = p1.reduce(a * a), p2.reduce(b * b)
+        # replace sin^2 in both
+    return repr(a.n * b.d) == repr(b.n * a.d) or (a.n * b.d) == (b.n * a.d)
